@@ -181,17 +181,23 @@ func (c *FileCache[MetadataT]) Cache(key CacheKey, data io.Reader, expires time.
 	defer lock.Unlock()
 
 	fileName := filepath.Join(c.rootDir.Path, key.Hex)
-	file, err := os.Create(fileName)
+
+	// Write to a temporary file and rename it over the final name only once it is complete.
+	// Creating the final name directly would truncate the file that readers of the current
+	// entry still hold open, and a failed or empty write would destroy the current entry's
+	// data while its metadata stays behind.
+	file, err := os.CreateTemp(c.rootDir.Path, key.Hex+".tmp-*")
 	if err != nil {
 		metrics.Global.Cache.CacheErrors.Increment()
 		slog.Error("Failed to create cache file", "key", key.Hex, "error", err)
 		return nil, fmt.Errorf("%w: failed to create cache file '%s'", ErrCacheFileCreate, fileName)
 	}
+	tmpName := file.Name()
 
 	fileSize, err := io.Copy(file, data)
 	if err != nil {
 		file.Close()
-		os.Remove(fileName)
+		os.Remove(tmpName)
 		metrics.Global.Cache.CacheErrors.Increment()
 		slog.Error("Failed to write cache file", "key", key.Hex, "error", err)
 		return nil, fmt.Errorf("%w: failed to write cache file '%s'", ErrCacheFileWrite, fileName)
@@ -199,10 +205,18 @@ func (c *FileCache[MetadataT]) Cache(key CacheKey, data io.Reader, expires time.
 
 	if fileSize == 0 {
 		file.Close()
-		os.Remove(fileName)
+		os.Remove(tmpName)
 		metrics.Global.Cache.CacheErrors.Increment()
 		slog.Error("Cache file is empty", "key", key.Hex, "file_size", fileSize)
 		return nil, fmt.Errorf("%w: wrote 0 bytes to cache file '%s'", ErrCacheFileEmpty, fileName)
+	}
+
+	if err := os.Rename(tmpName, fileName); err != nil {
+		file.Close()
+		os.Remove(tmpName)
+		metrics.Global.Cache.CacheErrors.Increment()
+		slog.Error("Failed to move cache file into place", "key", key.Hex, "error", err)
+		return nil, fmt.Errorf("%w: failed to move cache file into place '%s'", ErrCacheFileCreate, fileName)
 	}
 
 	meta := &EntryMetadata[MetadataT]{
